@@ -155,9 +155,14 @@ char *vp_transclude(const char *src, const char *search_path, const char *source
 	POOL_DRAIN();
 	return out;
 }
-char *vp_manifest(const char *src, const char *search_path, const char *source_path) {
+char *vp_manifest_fam(const char *src, const char *search_path, const char *source_path, int fam);
+char *vp_manifest(const char *src, const char *search_path, const char *source_path) { return vp_manifest_fam(src, search_path, source_path, 0); }
+char *vp_manifest_fam(const char *src, const char *search_path, const char *source_path, int fam) {
 	POOL_INIT();
-	stack *m = mmd_string_transclusion_manifest(src, search_path, source_path);
+	stack *m = NULL;
+	if (fam == 0) m = mmd_string_transclusion_manifest(src, search_path, source_path);
+	else if (fam == 1) { DString *d = d_string_new(src); m = mmd_d_string_transclusion_manifest(d, search_path, source_path); d_string_free(d, true); }
+	else { mmd_engine *e = mmd_engine_create_with_string(src, EXT_DEFAULT); m = mmd_engine_transclusion_manifest(e, search_path, source_path); mmd_engine_free(e, true); }
 	DString *mm = d_string_new("");
 	if (m) { for (size_t i = 0; i < m->size; i++) { d_string_append(mm, (char *)stack_peek_index(m, i)); d_string_append_c(mm, '\n'); free(stack_peek_index(m, i)); } stack_free(m); }
 	char *out = mm->str; d_string_free(mm, false);
